@@ -4,11 +4,11 @@ Model of `mchap/application/find_snvs.py`: `bam_region_depths` (including what `
 does with the keyword arguments it is given), `write_vcf_block` (frequencies, threshold mask, emission, allele
 ordering, REFMASKED, AD / ADMF) and `_vcf_sort_alleles`.
 
-`bam_region_depths` forwards `min_quality=`, `skip_duplicates=`, `skip_qcfail=`, `skip_supplementary=` to
-`AlignmentFile.pileup(**kwargs)`.  pysam reads only the keywords it knows (`stepper`, `flag_filter`,
-`min_mapping_quality`, `min_base_quality`, `ignore_orphans`, `ignore_overlaps`, …) and silently ignores the rest,
-so the pileup runs with pysam's defaults whatever the user configured.  The model mirrors that: `engineCfgOf` maps every
-`FilterCfg` to `pysamDefaults` (theorem `C19.depths_config_independent`); a repair of the code changes `engineCfgOf` only.
+`bam_region_depths` translates the configured read filters into the keywords `AlignmentFile.pileup` understands
+(`flag_filter`, `min_mapping_quality`): model `engineCfgOf`.  Everything else stays at pysam's defaults: secondary
+records are always masked, bases of quality < 13 are not reported, orphan mates are dropped, overlapping mates have
+their qualities merged.  (Before commit 31c45d9 of /repo the filters were forwarded under names pysam ignores, i.e.
+`engineCfgOf` was constantly `pysamDefaults`; `regionDepthsE pysamDefaults` is that old behaviour.)
 
 Core Lean only.
 -/
@@ -37,9 +37,13 @@ structure EngineCfg where
 
 def pysamDefaults : EngineCfg := {}
 
-/-- what `bam_region_depths(..., **kwargs)` makes of the configured filters: `min_quality`, `skip_duplicates`,
-`skip_qcfail` and `skip_supplementary` are not keywords of `pileup`, pysam drops them silently, the defaults stay -/
-def engineCfgOf (_cfg : FilterCfg) : EngineCfg := pysamDefaults
+/-- what `bam_region_depths` makes of the configured filters:
+`flag_filter = FUNMAP | FSECONDARY | (FDUP if skip_duplicates) | (FQCFAIL if skip_qcfail) | (FSUPPLEMENTARY if
+skip_supplementary)`, `min_mapping_quality = min_quality`; the other engine settings are pysam's defaults -/
+def engineCfgOf (cfg : FilterCfg) : EngineCfg :=
+  { flagFilter := 0x4 ||| 0x100 ||| (if cfg.skipDup then 0x400 else 0) ||| (if cfg.skipQc then 0x200 else 0)
+      ||| (if cfg.skipSupp then 0x800 else 0)
+    minMapQ := cfg.minQ }
 
 /-- read-level filter of the "samtools" stepper: flag mask, mapping quality, orphans (a paired record that is not a
 proper pair) -/
@@ -149,15 +153,18 @@ def columnBase (minBaseQ : Nat) (a : Aln) (p : Nat) : Option Nat :=
 def countColumn (f : Aln → Option Nat) (reads : List Aln) : List Nat :=
   (List.range 4).map (fun k => reads.countP (fun a => f a == some k))
 
-/-- `bam_region_depths(bam_paths, reference_path, contig, start, stop, min_quality=…, skip_duplicates=…,
-skip_qcfail=…, skip_supplementary=…)`: positions × samples × 4. The configured filters reach the engine only through
-`engineCfgOf`, i.e. not at all. -/
-def bamRegionDepths (cfg : FilterCfg) (bams : List (List Aln)) (contig : String) (start stop : Nat) :
+/-- the pileup of a region under a given engine configuration: positions × samples × 4 -/
+def regionDepthsE (e : EngineCfg) (bams : List (List Aln)) (contig : String) (start stop : Nat) :
     List (List (List Nat)) :=
-  let e := engineCfgOf cfg
   (List.range (stop - start)).map (fun i =>
     bams.map (fun reads =>
       countColumn (fun a => columnBase e.minBaseQ a (start + i)) (engineReads e contig start stop reads)))
+
+/-- `bam_region_depths(bam_paths, reference_path, contig, start, stop, min_quality=…, skip_duplicates=…,
+skip_qcfail=…, skip_supplementary=…)` -/
+def bamRegionDepths (cfg : FilterCfg) (bams : List (List Aln)) (contig : String) (start stop : Nat) :
+    List (List (List Nat)) :=
+  regionDepthsE (engineCfgOf cfg) bams contig start stop
 
 /-! ### thresholds, emission, ordering (`write_vcf_block`) -/
 
@@ -179,22 +186,19 @@ def indOk (t : Thresh) (d : List Nat) (a : Nat) : Bool :=
   | none => false
   | some f => decide (t.indMaf ≤ f) && decide (t.indMad ≤ (d.getD a 0 : Int))
 
-/-- `np.mean(allele_freq, axis=1)`: NaN as soon as one sample has no depth (or there is no sample) -/
-def meanFreq (ds : List (List Nat)) (a : Nat) : Option Rat :=
-  if ds.isEmpty then none else (ds.mapM (fun d => alleleFreq d a)).map (fun fs => fs.sum / (ds.length : Rat))
-
-def popDepth (ds : List (List Nat)) (a : Nat) : Nat := (ds.map (fun d => d.getD a 0)).sum
-
-/-- the `keep` mask of one allele at one position -/
-def keepAllele (t : Thresh) (ds : List (List Nat)) (a : Nat) : Bool :=
-  decide (t.minInd ≤ (ds.countP (fun d => indOk t d a) : Int))
-  && (if 0 < t.maf then (match meanFreq ds a with | none => false | some m => decide (t.maf ≤ m)) else true)
-  && (if 0 < t.mad then decide (t.mad ≤ (popDepth ds a : Int)) else true)
-
 /-- `np.nanmean(allele_freq, axis=1)`: mean over the samples with depth; NaN when there is none -/
 def nanMeanFreq (ds : List (List Nat)) (a : Nat) : Option Rat :=
   let fs := ds.filterMap (fun d => alleleFreq d a)
   if fs.isEmpty then none else some (fs.sum / (fs.length : Rat))
+
+def popDepth (ds : List (List Nat)) (a : Nat) : Nat := (ds.map (fun d => d.getD a 0)).sum
+
+/-- the `keep` mask of one allele at one position; `--maf` is tested against the mean frequency among the samples with
+reads (`np.nanmean`; all-NaN is NaN and fails) -/
+def keepAllele (t : Thresh) (ds : List (List Nat)) (a : Nat) : Bool :=
+  decide (t.minInd ≤ (ds.countP (fun d => indOk t d a) : Int))
+  && (if 0 < t.maf then (match nanMeanFreq ds a with | none => false | some m => decide (t.maf ≤ m)) else true)
+  && (if 0 < t.mad then decide (t.mad ≤ (popDepth ds a : Int)) else true)
 
 /-- `depth_mean_freq` after `np.where(keep, allele_freq, 0.0)` -/
 def sortKey (t : Thresh) (ds : List (List Nat)) (a : Nat) : Option Rat :=
